@@ -389,3 +389,64 @@ def u_ring_climb(ctx):
 
 
 REPLAYERS["ring[memetic hill climber accepts and rejects by the dominance predicate: its leader is never dominated by a solution it evaluated]"] = _climb_case
+
+
+def _descent_front_case(case):
+    """MultiObjectiveStochasticDescentHillClimberMutation.hillclimb documents that it returns non-dominated individuals: on an
+    unconstrained table-driven problem no returned individual may be Pareto-dominated by another returned one"""
+    import io
+    import contextlib
+    import numpy as np
+    from pymoo.core.problem import Problem
+    from pymoo.core.individual import Individual
+    from pybrops.opt.algo.pymoo_addon import MultiObjectiveStochasticDescentHillClimberMutation as M
+    rs = np.random.RandomState(case["seed"])
+    table = rs.randint(0, 5, size=(case["nset"], case["nobj"])).astype(float)
+
+    class P_(Problem):
+        def __init__(self):
+            super().__init__(n_var=case["k"], n_obj=case["nobj"], xl=0, xu=case["nset"] - 1, vtype=int)
+
+        def _evaluate(self, x, out, *a, **kw):
+            out["F"] = table[np.atleast_2d(x)].sum(1)
+    st = np.random.get_state()
+    np.random.seed(case["seed"] % (2 ** 31))
+    try:
+        x0 = np.random.choice(case["nset"], case["k"], replace=False)
+        mut = M(setspace=np.arange(case["nset"]), phc=1.0, nhc=3 * case["k"])
+        with contextlib.redirect_stdout(io.StringIO()):
+            pop = mut.hillclimb(P_(), Individual(X=x0.copy()))
+    finally:
+        np.random.set_state(st)
+    if len(pop) == 0:
+        return False, "ok"
+    F = np.atleast_2d(pop.get("F"))
+    for i in range(len(F)):
+        for j in range(len(F)):
+            if i != j and np.all(F[i] <= F[j]) and np.any(F[i] < F[j]):
+                return True, ("hill climb from %r returned individuals with objectives %r: number %d dominates number %d, yet both are "
+                              "handed back as the non-dominated result" % (x0.tolist(), F.tolist(), i, j))
+    return False, "ok"
+
+
+@unit(P, "ring[stochastic-descent memetic hill climber returns mutually non-dominated individuals]", "R", bounded=True,
+      targets=[ADDON + ":MultiObjectiveStochasticDescentHillClimberMutation.hillclimb"],
+      note="bounded: 400 (thorough 8000) seeded climbs on unconstrained additive table problems, set space <=12, subsets <=4, 1-3 objectives "
+           "with small integer scores (ties, duplicates)")
+def u_ring_descent(ctx):
+    ctx.rule = "seeded; numpy's global generator seeded per case and restored; every case counted; distinct by the case"
+    for c in range(400 if ctx.tier == "quick" else 8000):
+        k = ctx.rng.choice([2, 3, 4])
+        case = dict(seed=ctx.rng.randrange(10 ** 9), nset=ctx.rng.randrange(k + 2, 13), k=k, nobj=ctx.rng.choice([1, 2, 2, 3]))
+        try:
+            bad, msg = _descent_front_case(case)
+        except Exception as e:
+            bad, msg = True, "exception %s: %s" % (type(e).__name__, e)
+        ctx.case(repr(sorted(case.items())), nontrivial=True, sample=case if c < 2 else None)
+        if bad:
+            ctx.fail_input("ring:memetic-descent:returned-front", case, cls="memetic-descent", message=msg)
+            if len(ctx.failures) >= 3:
+                break
+
+
+REPLAYERS["ring[stochastic-descent memetic hill climber returns mutually non-dominated individuals]"] = _descent_front_case
